@@ -27,7 +27,7 @@ def reset():
 
 def main():
     pid, v = sys.argv[1], sys.argv[2]
-    src = f"/tmp/mut-{pid}-out/{v}"
+    src = os.environ.get("MUT_PREFIX", "/tmp/mut") + f"-{pid}-out/{v}"
     name = f"demo_{v.lower()}"
     res = {"property": pid, "variant": v}
     reset()
